@@ -31,6 +31,9 @@ struct tctx {
   bool record;
   pthread_barrier_t* bar;
   uint64_t allocs, frees;
+  FILE* shared;          /* one stream all threads of the run describe to (streams are not items: sharing one is legal) */
+  uint64_t hist[256];    /* bytes this thread's describe calls are known to produce, per byte value */
+  uint64_t shared_calls;
 };
 
 static inline uint64_t rdtsc(void) { unsigned lo, hi; __asm__ volatile("rdtsc" : "=a"(lo), "=d"(hi)); return (uint64_t)hi << 32 | lo; }
@@ -110,6 +113,11 @@ static void workload(struct tctx* c) {
         fflush(df);
         dg = vh_hash_mix(dg, vh_hash(dtext, dlen));
         rewind(df);
+        if (c->shared) {
+          for (size_t q = 0; q < dlen; q++) c->hist[(uint8_t)dtext[q]]++;
+          STAMP(F_DESCRIBE, cbor_describe(it, c->shared));
+          c->shared_calls++;
+        }
       }
       vb_reset(&dump);
       STAMP(F_WALK, walk_dump_item(it, &dump, WD_REFCOUNTS));
@@ -211,14 +219,35 @@ static void thr_case(int nthreads, int nops, uint64_t seed, bool tsan) {
   pthread_barrier_t bar;
   pthread_barrier_init(&bar, NULL, (unsigned)nthreads);
   memset(cs, 0, sizeof cs);
+  FILE* shared = tmpfile();
+  if (!shared) vh_die("tmpfile failed");
   for (int i = 0; i < nthreads; i++) {
-    cs[i].id = i; cs[i].seed = seed * 1000003 + (uint64_t)i; cs[i].nops = nops; cs[i].bar = &bar;
+    cs[i].id = i; cs[i].seed = seed * 1000003 + (uint64_t)i; cs[i].nops = nops; cs[i].bar = &bar; cs[i].shared = shared;
     cs[i].record = true; cs[i].stamps = malloc(sizeof(struct opstamp) * MAXOPS);
   }
   for (int i = 0; i < nthreads; i++) if (pthread_create(&th[i], NULL, thread_main, &cs[i])) vh_die("pthread_create failed");
   for (int i = 0; i < nthreads; i++) pthread_join(th[i], NULL);
   pthread_barrier_destroy(&bar);
   overlaps(cs, nthreads);
+  /* conservation on the shared stream: every byte the threads' describe calls produce arrives exactly once */
+  {
+    uint64_t want[256] = {0}, got[256] = {0}, calls = 0, total = 0;
+    for (int i = 0; i < nthreads; i++) { calls += cs[i].shared_calls; for (int b = 0; b < 256; b++) want[b] += cs[i].hist[b]; }
+    fflush(shared);
+    rewind(shared);
+    uint8_t blk[8192];
+    size_t k;
+    while ((k = fread(blk, 1, sizeof blk, shared)) > 0) { total += k; for (size_t q = 0; q < k; q++) got[blk[q]]++; }
+    fclose(shared);
+    for (int b = 0; b < 256; b++)
+      if (want[b] != got[b]) {
+        vh_violation("shared-stream-output-lost-or-duplicated", "%d threads described private items to one shared stream (%llu calls): byte 0x%02x was produced %llu times but arrived %llu times — output through a stream shared between threads is not written atomically per call", nthreads,
+                     (unsigned long long)calls, b, (unsigned long long)want[b], (unsigned long long)got[b]);
+        break;
+      }
+    VH_COUNT("shared_stream.describe_calls", calls);
+    VH_COUNT("shared_stream.bytes_checked", total);
+  }
   /* the same workloads, alone */
   for (int i = 0; i < nthreads; i++) {
     struct tctx solo = {.id = i, .seed = cs[i].seed, .nops = nops, .record = false};
